@@ -447,6 +447,8 @@ func runC15(r *vf.Run) {
 	c15Positional(r, dir)
 	c15GobCount(r, dir)
 	c15ChildProcess(r, dir)
+	c15RejectedQueries(r, dir)
+	c15ForeignLock(r, dir)
 	// special paths
 	specials := []struct {
 		name  string
